@@ -279,10 +279,12 @@ def hyp(name, extra=(), **kw):
     return Job(name, 'C12_hyperedge.cpp', list(extra), ['libavoid'], **kw)
 B_HYP = 'orthogonal Router, three 20x20 shapes (0,40),(120,0),(120,80) each with an exclusive pin facing the middle, one free junction at any integer point of [40,100]x[20,80], three connectors junction->pin; '
 JOBS['C12'] = {
-    'quick': [hyp('improve-moving', ['-DIMPROVE=1'], bounds=B_HYP + 'improveHyperedgeRoutesMovingJunctions')],
-    'thorough': [hyp('improve-addremove', ['-DIMPROVE=1', '-DADDREMOVE'], bounds=B_HYP + 'improveHyperedgeRoutesMovingAddingAndDeletingJunctions'),
-                 hyp('improve-moving-then-move', ['-DIMPROVE=1', '-DMOVE'], bounds=B_HYP + 'then one shape is moved by (dx,dy) in [-10,10]^2 and a second transaction runs'),
-                 hyp('reroute-registered', ['-DIMPROVE=1', '-DREROUTE'], bounds=B_HYP + 'hyperedge registered (by junction) with the HyperedgeRerouter for full rerouting')],
+    'quick': [hyp('improve-moving-line', ['-DIMPROVE=1', '-DJYFIX=45'], bounds=B_HYP.replace('any integer point of [40,100]x[20,80]', 'any integer point (x,45), x in [40,100]') + 'improveHyperedgeRoutesMovingJunctions')],
+    'thorough': [hyp('improve-moving', ['-DIMPROVE=1'], bounds=B_HYP + 'improveHyperedgeRoutesMovingJunctions', time_limit=3000),
+                 hyp('improve-addremove', ['-DIMPROVE=1', '-DADDREMOVE', '-DJYFIX=45'], bounds=B_HYP + 'improveHyperedgeRoutesMovingAddingAndDeletingJunctions'),
+                 hyp('improve-moving-then-move', ['-DIMPROVE=1', '-DMOVE', '-DJYFIX=45'], bounds=B_HYP + 'then one shape is moved by (dx,dy) in [-10,10]^2 and a second transaction runs'),
+                 hyp('reroute-by-terminals', ['-DREROUTE_TERMS'], bounds='three shapes with pins (one shifted by a symbolic dx in [-10,10]); the hyperedge is registered with the HyperedgeRerouter by its list of three terminals only; the rerouter creates junction(s) and connectors'),
+                 hyp('reroute-registered', ['-DIMPROVE=1', '-DREROUTE', '-DJYFIX=45'], bounds=B_HYP + 'hyperedge registered (by junction) with the HyperedgeRerouter for full rerouting')],
 }
 ASSUMPTIONS['C12'] = ['3 terminals, no obstacles between them, one hyperedge; larger hyperedges are outside the bound']
 
